@@ -317,3 +317,109 @@ def ctl_handler_without_fail(ctx):
     base = {f.key for f in X.rule_X3(ctx).findings}
     new = [f for f in X.rule_X3(ctx.derive(p2)).findings if f.key not in base]
     return ("handler_without_fail", bool(new), "handler no longer fails the workflow: %d new" % len(new))
+
+
+# ---------------------------------------------------------------------- path rules
+def _ctl_paths(ctx, name, relpath, qual, pred, repl, rules, what):
+    return _edit_control(ctx, name, relpath, qual, pred, repl, rules, what=what)
+
+
+def ctl_offer_completed_entries(ctx):
+    import ast
+    from sa import paths as P
+
+    def pred(n):
+        return isinstance(n, ast.comprehension) and n.ifs and "completed" in ast.unparse(n.ifs[0])
+
+    def repl(n):
+        n.ifs = [n.ifs[0].values[0]] if isinstance(n.ifs[0], ast.BoolOp) else []
+        return n
+
+    return _ctl_paths(ctx, "offer_completed_entries", COND, "WorkflowState.get_staged_tasks", pred,
+                      repl, [P.rule_P1], "staged filter without the completed flag")
+
+
+def ctl_drop_offer_gate(ctx):
+    import ast
+    from sa import paths as P
+
+    def pred(n):
+        return isinstance(n, ast.If) and "RUNNING_STATUSES" in ast.unparse(n.test)
+
+    return _ctl_paths(ctx, "drop_offer_gate", COND, "WorkflowConductor.get_next_tasks", pred,
+                      lambda n: None, [P.rule_P2], "offers without the status gate")
+
+
+def ctl_stage_without_criteria(ctx):
+    import ast
+    from sa import paths as P
+
+    def pred(n):
+        return isinstance(n, ast.If) and ast.unparse(n.test).replace('"', "'") == \
+            "task_state_entry['next'][task_transition_id]"
+
+    def repl(n):
+        n.test = ast.Constant(value=True)
+        return n
+
+    return _ctl_paths(ctx, "stage_without_criteria", COND, "WorkflowConductor.update_task_state",
+                      pred, repl, [P.rule_P3], "next task staged whatever the criteria")
+
+
+def ctl_keep_started_task_staged(ctx):
+    import ast
+    from sa import paths as P
+
+    def pred(n):
+        return isinstance(n, ast.If) and "remove_staged_task" in ast.unparse(n) and \
+            "items" in ast.unparse(n.test)
+
+    return _ctl_paths(ctx, "keep_started_task_staged", COND, "WorkflowConductor.update_task_state",
+                      pred, lambda n: None, [P.rule_P4], "started task not removed from staging")
+
+
+def ctl_join_always_ready(ctx):
+    import ast
+    from sa import paths as P
+
+    def pred(n):
+        return isinstance(n, ast.Assign) and "['ready']" in ast.unparse(n.targets[0]).replace('"', "'")
+
+    def repl(n):
+        n.value = ast.Constant(value=True)
+        return n
+
+    return _ctl_paths(ctx, "join_always_ready", COND, "WorkflowConductor.update_task_state", pred,
+                      repl, [P.rule_P5], "ready flag no longer computed from inbound criteria")
+
+
+def ctl_retry_off_by_one(ctx):
+    import ast
+    from sa import paths as P
+
+    def pred(n):
+        return isinstance(n, ast.Compare) and len(n.ops) == 1 and isinstance(n.ops[0], ast.GtE) \
+            and "tally" in ast.unparse(n)
+
+    def repl(n):
+        n.ops = [ast.Gt()]
+        return n
+
+    return _ctl_paths(ctx, "retry_off_by_one", COND, "WorkflowConductor._evaluate_task_retry", pred,
+                      repl, [P.rule_P6], "retry bound tally > count")
+
+
+def ctl_join_threshold(ctx):
+    import ast
+    from sa import paths as P
+
+    def pred(n):
+        return isinstance(n, ast.Compare) and len(n.ops) == 1 and isinstance(n.ops[0], ast.GtE) \
+            and "count(True)" in ast.unparse(n)
+
+    def repl(n):
+        n.ops = [ast.Gt()]
+        return n
+
+    return _ctl_paths(ctx, "join_threshold", COND, "WorkflowConductor.get_inbound_criteria_status",
+                      pred, repl, [P.rule_P7], "join threshold > instead of >=")
